@@ -28,7 +28,7 @@ RUN_TIMEOUT_S = 60.0
 MIN_BUDGET = 250
 
 TIERS = {
-    'quick': {'runs': 100000, 'classes': 8, 'budget_s': 80},
+    'quick': {'runs': 100000, 'classes': 8, 'budget_s': 60},
     'thorough': {'runs': 3000000, 'classes': 32, 'budget_s': 1100},
 }
 
